@@ -467,7 +467,7 @@ static int run_cmd(char *op, int *a, int na) {
 static char **lines; static int nlines, caplines;
 /* watchdog per behaviour: 10 s; once behaviours of this run have hung (the tree under test loops) the following ones get 3 s, then
  * 1 s - a healthy behaviour takes milliseconds, and a tree that hangs thousands of behaviours must not cost hours */
-static unsigned watchdog_s = 10; static int nhang;
+static unsigned watchdog_s = 10; static int nhang, nbad;
 static void on_alarm(int s) { (void)s; static const char m[] = "; hang\n"; if (write(1, m, sizeof m - 1)) {} _exit(80); }
 
 void __sanitizer_set_death_callback(void (*cb)(void));
@@ -532,11 +532,21 @@ int main(int argc, char **argv) {
         int eof = n < 0; int isB = !eof && ln[0] == 'B' && ln[1] == ' ';
         if ((eof || isB) && cur >= 0) {
             printf("B %ld\n", cur); fflush(stdout);
+            /* the tree under test hangs or dies over and over: the verdict is in, the rest of this chunk is not run */
+            if (!nofork && (nhang >= 25 || nbad >= 500)) {
+                printf("E %ld skipped\n", cur); fflush(stdout);
+                for (int i = 0; i < nlines; i++) free(lines[i]);
+                nlines = 0;
+                if (eof) break;
+                if (isB) { cur = atol(ln + 2); }
+                continue;
+            }
             if (nofork) { run_behaviour(); printf("E %ld ok\n", cur); exit(0); }
             pid_t pid = fork();
             if (pid == 0) { run_behaviour(); fflush(stdout); _exit(0); }
             int st = 0; waitpid(pid, &st, 0);
             if (WIFEXITED(st) && WEXITSTATUS(st) == 80) { nhang++; watchdog_s = nhang < 3 ? 10 : nhang < 10 ? 3 : 1; }
+            if (!(WIFEXITED(st) && WEXITSTATUS(st) == 0)) nbad++;
             if (WIFEXITED(st) && WEXITSTATUS(st) == 0) printf("E %ld ok\n", cur);
             else if (WIFEXITED(st)) { printf("\nE %ld exit%d\n", cur, WEXITSTATUS(st)); fprintf(stderr, "== behaviour %ld exit %d\n", cur, WEXITSTATUS(st)); }
             else { printf("\nE %ld sig%d\n", cur, WTERMSIG(st)); fprintf(stderr, "== behaviour %ld signal %d\n", cur, WTERMSIG(st)); }
